@@ -2179,7 +2179,7 @@ impl<'a> Visitor<'a> {
             return Ok(ArgumentResult {
                 positional,
                 named,
-                separator: ListSeparator::Undecided,
+                separator,
                 span: arguments.span,
                 touched: BTreeSet::new(),
             });
@@ -2310,10 +2310,11 @@ impl<'a> Visitor<'a> {
                         Rc::clone(&were_keywords_accessed),
                         // todo: superfluous clone
                         evaluated.named.clone(),
+                        // the argument list keeps the separator of a splatted list
                         if evaluated.separator == ListSeparator::Undecided {
                             ListSeparator::Comma
                         } else {
-                            ListSeparator::Space
+                            evaluated.separator
                         },
                     ));
 
